@@ -757,3 +757,368 @@ Example C16_canonical_accepted_lattice_example :
   conv_trusts (canonicalize_trust (VTuple [VList [VInt 2; VInt 1; VStr "Negative"]])) = CVal (l_trap c) /\
   accepts_lattice c = true.
 Proof. cbv zeta. repeat split; vm_compute; reflexivity. Qed.
+
+(* ========================================================================== *)
+(* Second part of Model/Verify.v: RTL, CDF, regulariser objects, premade       *)
+(* verify_config (Proofs/VerifyFacts2.v).  Same reading: accepts_* = true means *)
+(* constructed (+ built), false means ValueError (or the other exception class  *)
+(* named in the comment).                                                       *)
+(* ========================================================================== *)
+From TFL Require Model.RTLStructure.
+From TFL Require Import Proofs.VerifyFacts2.
+
+(* ---- lattice regulariser objects (lattice_layer.LaplacianRegularizer / TorsionRegularizer):
+   g_sizes = lattice_sizes, g_l1 / g_l2 = the amounts (AmtSeq n: a list / tuple of length n) *)
+Theorem C16_reject_lattice_regularizer_size_below_2 : forall c s,
+  In s (g_sizes c) -> s < 2 -> accepts_lattice_regularizer c = false.
+Proof. exact reject_latreg_size. Qed.
+Print Assumptions C16_reject_lattice_regularizer_size_below_2.
+Theorem C16_reject_lattice_regularizer_l1_length : forall c n,
+  g_l1 c = AmtSeq n -> n <> 0 -> n <> zlen (g_sizes c) -> accepts_lattice_regularizer c = false.
+Proof. exact reject_latreg_l1_length. Qed.
+Print Assumptions C16_reject_lattice_regularizer_l1_length.
+Theorem C16_reject_lattice_regularizer_l2_length : forall c n,
+  g_l2 c = AmtSeq n -> n <> 0 -> n <> zlen (g_sizes c) -> accepts_lattice_regularizer c = false.
+Proof. exact reject_latreg_l2_length. Qed.
+Print Assumptions C16_reject_lattice_regularizer_l2_length.
+Theorem C16_accepted_lattice_regularizer_wellformed : forall c,
+  accepts_lattice_regularizer c = true -> latreg_accepted c.
+Proof. exact accepts_lattice_regularizer_sound. Qed.
+Print Assumptions C16_accepted_lattice_regularizer_wellformed.
+Theorem C16_wellformed_lattice_regularizer_accepted : forall c,
+  latreg_accepted c -> accepts_lattice_regularizer c = true.
+Proof. exact accepts_lattice_regularizer_complete. Qed.
+Print Assumptions C16_wellformed_lattice_regularizer_accepted.
+(* as is: an empty per-dimension list is falsy, hence not compared with the rank *)
+Theorem C16_reject_lattice_regularizer_empty_list_refuted : exists c, g_l1 c = AmtSeq 0 /\ zlen (g_sizes c) <> 0 /\ accepts_lattice_regularizer c = true.
+Proof. exact latreg_empty_list_accepted. Qed.
+Print Assumptions C16_reject_lattice_regularizer_empty_list_refuted.
+(* the PWL regularisers' constructors check nothing *)
+Theorem C16_pwl_regularizer_always_accepted : forall l1 l2 cyc,
+  accepts_pwl_regularizer l1 l2 cyc = true.
+Proof. exact pwl_regularizer_always_accepted. Qed.
+Print Assumptions C16_pwl_regularizer_always_accepted.
+
+(* ---- RTL: rtl_lib.verify_hyperparameters + RTL.__init__ + RTL.build.
+   t_num / t_rank / t_size = num_lattices / lattice_rank / lattice_size; rtl_n_inputs = number of
+   inputs in the input-shape dict; t_param, t_init = parameterization and kernel_initializer as
+   the code's membership tests classify them; t_regs = kernel_regularizer (RegTuple: one
+   (name, l1, l2) tuple, not inspected by rtl_lib; RegList: the list form).  The sub-layer checks
+   (parameterization, initialiser, init range, regulariser names and per-dimension amounts,
+   num_terms) are reached only when there is a lattice: 1 <= num_lattices. *)
+Theorem C16_reject_rtl_lattice_size_below_2 : forall c,
+  t_size c < 2 -> accepts_rtl c = false.
+Proof. exact reject_rtl_size. Qed.
+Print Assumptions C16_reject_rtl_lattice_size_below_2.
+Theorem C16_reject_rtl_output_min_ge_max : forall c lo hi,
+  t_omin c = Some lo -> t_omax c = Some hi -> (hi <= lo)%Q -> accepts_rtl c = false.
+Proof. exact reject_rtl_output_min_ge_max. Qed.
+Print Assumptions C16_reject_rtl_output_min_ge_max.
+Theorem C16_reject_rtl_unknown_interpolation : forall c,
+  t_interp_ok c = false -> accepts_rtl c = false.
+Proof. exact reject_rtl_interpolation. Qed.
+Print Assumptions C16_reject_rtl_unknown_interpolation.
+Theorem C16_reject_rtl_kfl_linear_initializer : forall c,
+  t_param c = ParamKfl -> t_init c = InitLinearExact -> accepts_rtl c = false.
+Proof. exact reject_rtl_kfl_linear_initializer. Qed.
+Print Assumptions C16_reject_rtl_kfl_linear_initializer.
+Theorem C16_reject_rtl_kfl_regularizer : forall c,
+  t_param c = ParamKfl -> t_regs c <> RegNone -> accepts_rtl c = false.
+Proof. exact reject_rtl_kfl_regularizer. Qed.
+Print Assumptions C16_reject_rtl_kfl_regularizer.
+Theorem C16_reject_rtl_regularizer_list_entry_bad : forall c es e,
+  t_regs c = RegList es -> In e es -> (re_len e <> 3 \/ re_l1 e <> AmtFloat \/ re_l2 e <> AmtFloat) ->
+  accepts_rtl c = false.
+Proof. exact reject_rtl_regularizer_list_entry. Qed.
+Print Assumptions C16_reject_rtl_regularizer_list_entry_bad.
+(* KeyError in the library, not ValueError (reported) *)
+Theorem C16_reject_rtl_unknown_input_key : forall c,
+  t_keys_ok c = false -> accepts_rtl c = false.
+Proof. exact reject_rtl_input_key. Qed.
+Print Assumptions C16_reject_rtl_unknown_input_key.
+(* IndexError in the library, not ValueError (reported) *)
+Theorem C16_reject_rtl_empty_regularizer_list : forall c,
+  t_regs c = RegList [] -> accepts_rtl c = false.
+Proof. exact reject_rtl_empty_regularizer_list. Qed.
+Print Assumptions C16_reject_rtl_empty_regularizer_list.
+Theorem C16_reject_rtl_too_small : forall c,
+  t_num c * t_rank c < rtl_n_inputs c -> accepts_rtl c = false.
+Proof. exact reject_rtl_too_small. Qed.
+Print Assumptions C16_reject_rtl_too_small.
+Theorem C16_reject_rtl_no_inputs : forall c,
+  rtl_n_inputs c <= 0 -> accepts_rtl c = false.
+Proof. exact reject_rtl_no_inputs. Qed.
+Print Assumptions C16_reject_rtl_no_inputs.
+Theorem C16_reject_rtl_unknown_parameterization : forall c,
+  1 <= t_num c -> t_param c = ParamOther -> accepts_rtl c = false.
+Proof. exact reject_rtl_parameterization. Qed.
+Print Assumptions C16_reject_rtl_unknown_parameterization.
+Theorem C16_reject_rtl_init_min_without_max : forall c,
+  1 <= t_num c ->
+  (t_init_min c = None /\ t_init_max c <> None) \/ (t_init_min c <> None /\ t_init_max c = None) ->
+  accepts_rtl c = false.
+Proof. exact reject_rtl_init_min_without_max. Qed.
+Print Assumptions C16_reject_rtl_init_min_without_max.
+Theorem C16_reject_rtl_unknown_initializer : forall c,
+  1 <= t_num c -> t_init c = InitUnknown -> accepts_rtl c = false.
+Proof. exact reject_rtl_unknown_initializer. Qed.
+Print Assumptions C16_reject_rtl_unknown_initializer.
+Theorem C16_reject_rtl_initializer_of_other_parameterization : forall c,
+  1 <= t_num c ->
+  (t_param c = ParamAll /\ t_init c = InitKfl) \/
+  (t_param c = ParamKfl /\ (t_init c = InitLatticeRanged \/ t_init c = InitLinearExact)) ->
+  accepts_rtl c = false.
+Proof. exact reject_rtl_initializer_of_other_parameterization. Qed.
+Print Assumptions C16_reject_rtl_initializer_of_other_parameterization.
+Theorem C16_reject_rtl_empty_init_range : forall c,
+  1 <= t_num c -> t_param c = ParamAll -> init_ranged (t_init c) ->
+  (snd (rtl_init_range c) <= fst (rtl_init_range c))%Q -> accepts_rtl c = false.
+Proof. exact reject_rtl_empty_init_range. Qed.
+Print Assumptions C16_reject_rtl_empty_init_range.
+Theorem C16_reject_rtl_lattice_regularizer_bad : forall c e,
+  1 <= t_num c -> t_param c = ParamAll -> In e (regs_entries (t_regs c)) ->
+  (re_len e <> 3 \/ re_name_known e = false \/
+   (exists n, re_l1 e = AmtSeq n /\ n <> 0 /\ n <> t_rank c) \/
+   (exists n, re_l2 e = AmtSeq n /\ n <> 0 /\ n <> t_rank c)) ->
+  accepts_rtl c = false.
+Proof. exact reject_rtl_lattice_regularizer. Qed.
+Print Assumptions C16_reject_rtl_lattice_regularizer_bad.
+Theorem C16_reject_rtl_kfl_num_terms_negative : forall c,
+  1 <= t_num c -> t_param c = ParamKfl -> t_terms c < 0 -> accepts_rtl c = false.
+Proof. exact reject_rtl_kfl_num_terms. Qed.
+Print Assumptions C16_reject_rtl_kfl_num_terms_negative.
+Theorem C16_accepted_rtl_wellformed : forall c,
+  accepts_rtl c = true -> rtl_accepted c.
+Proof. exact accepts_rtl_sound. Qed.
+Print Assumptions C16_accepted_rtl_wellformed.
+(* as is: num_lattices < 0 and lattice_rank < 0 pass the product test and nothing else is checked (reported) *)
+Theorem C16_reject_rtl_negative_counts_refuted : exists c, t_num c < 0 /\ t_rank c < 0 /\ t_param c = ParamOther /\ accepts_rtl c = true.
+Proof. exact rtl_negative_counts_accepted. Qed.
+Print Assumptions C16_reject_rtl_negative_counts_refuted.
+(* as is (known finding D48): num_terms = 0 passes `if num_terms and num_terms < 1` *)
+Theorem C16_reject_rtl_zero_terms_refuted : exists c, t_param c = ParamKfl /\ t_terms c = 0 /\ 1 <= t_num c /\ accepts_rtl c = true.
+Proof. exact rtl_zero_terms_accepted. Qed.
+Print Assumptions C16_reject_rtl_zero_terms_refuted.
+(* bridge to C17: an accepted RTL with num_lattices >= 0 has a lattice, rank >= 1, an input, enough slots *)
+Theorem C16_accepted_rtl_counts : forall c,
+  accepts_rtl c = true -> 0 <= t_num c ->
+  1 <= t_num c /\ 1 <= t_rank c /\ 0 < rtl_n_inputs c <= t_num c * t_rank c.
+Proof. exact accepted_rtl_counts. Qed.
+Print Assumptions C16_accepted_rtl_counts.
+(* bridge to C17: _get_rtl_structure (Model/RTLStructure.v) does not raise, for every shuffle; the
+   result is the premise `rtl_structure cfg sh1 sh2 = Some s` of the C17_rtl_* theorems *)
+Theorem C16_accepted_rtl_structure_exists : forall c avoid ms sh1 sh2,
+  accepts_rtl c = true -> 0 <= t_num c ->
+  (forall z, t_inc c = Some z -> 0 <= z) -> (forall z, t_unc c = Some z -> 0 <= z) ->
+  exists s, RTLStructure.rtl_structure (conv_rtl c avoid ms) sh1 sh2 = Some s.
+Proof. exact accepted_rtl_structure_exists. Qed.
+Print Assumptions C16_accepted_rtl_structure_exists.
+(* every Lattice the RTL creates (sizes [lattice_size] * lattice_rank, any monotonicity tuple of that
+   length) passes lattice_lib.verify_hyperparameters; with C16_accepted_lattice_is_valid: cfg_valid *)
+Theorem C16_accepted_rtl_sublattice_accepted : forall c ms,
+  accepts_rtl c = true -> 0 <= t_rank c -> zlen ms = t_rank c ->
+  accepts_lattice (sub_lattice_cfg c ms) = true.
+Proof. exact accepted_rtl_sublattice_accepted. Qed.
+Print Assumptions C16_accepted_rtl_sublattice_accepted.
+(* every KroneckerFactoredLattice the RTL creates passes accepts_kfl *)
+Theorem C16_accepted_rtl_subkfl_accepted : forall c units ms,
+  accepts_rtl c = true -> 1 <= t_num c -> t_param c = ParamKfl ->
+  1 <= units -> zlen ms = t_rank c -> accepts_kfl (sub_kfl_cfg c units ms) = true.
+Proof. exact accepted_rtl_subkfl_accepted. Qed.
+Print Assumptions C16_accepted_rtl_subkfl_accepted.
+
+(* ---- CDF: __init__ + build; activation / reduction are only checked by call() (D49) *)
+Theorem C16_reject_cdf_unknown_monotonicity : forall c,
+  d_mono_ok c = false -> accepts_cdf c = false.
+Proof. exact reject_cdf_monotonicity. Qed.
+Print Assumptions C16_reject_cdf_unknown_monotonicity.
+Theorem C16_reject_cdf_unknown_initializer : forall c,
+  d_init_ok c = false -> accepts_cdf c = false.
+Proof. exact reject_cdf_initializer. Qed.
+Print Assumptions C16_reject_cdf_unknown_initializer.
+(* ZeroDivisionError in the library (known finding D48) *)
+Theorem C16_reject_cdf_sparsity_zero : forall c,
+  d_sparsity c = 0 -> accepts_cdf c = false.
+Proof. exact reject_cdf_sparsity_zero. Qed.
+Print Assumptions C16_reject_cdf_sparsity_zero.
+Theorem C16_reject_cdf_input_dim_not_multiple : forall c,
+  d_dims c mod d_sparsity c <> 0 -> accepts_cdf c = false.
+Proof. exact reject_cdf_input_dim_not_multiple. Qed.
+Print Assumptions C16_reject_cdf_input_dim_not_multiple.
+Theorem C16_reject_cdf_units_not_multiple : forall c,
+  d_units c mod d_sparsity c <> 0 -> accepts_cdf c = false.
+Proof. exact reject_cdf_units_not_multiple. Qed.
+Print Assumptions C16_reject_cdf_units_not_multiple.
+Theorem C16_reject_cdf_negative_keypoints : forall c,
+  d_keypoints c < 0 -> accepts_cdf c = false.
+Proof. exact reject_cdf_negative_keypoints. Qed.
+Print Assumptions C16_reject_cdf_negative_keypoints.
+Theorem C16_reject_cdf_negative_units_per_group : forall c,
+  d_units c / d_sparsity c < 0 -> accepts_cdf c = false.
+Proof. exact reject_cdf_negative_units. Qed.
+Print Assumptions C16_reject_cdf_negative_units_per_group.
+Theorem C16_reject_cdf_negative_units : forall c,
+  0 < d_sparsity c -> d_units c < 0 -> accepts_cdf c = false.
+Proof. exact reject_cdf_negative_units_pos. Qed.
+Print Assumptions C16_reject_cdf_negative_units.
+Theorem C16_reject_cdf_unknown_scaling_type : forall c,
+  d_scaling_ok c = false -> accepts_cdf c = false.
+Proof. exact reject_cdf_scaling_type. Qed.
+Print Assumptions C16_reject_cdf_unknown_scaling_type.
+Theorem C16_accepted_cdf_wellformed : forall c,
+  accepts_cdf c = true -> cdf_accepted c.
+Proof. exact accepts_cdf_sound. Qed.
+Print Assumptions C16_accepted_cdf_wellformed.
+Theorem C16_wellformed_cdf_accepted : forall c,
+  cdf_accepted c -> accepts_cdf c = true.
+Proof. exact accepts_cdf_complete. Qed.
+Print Assumptions C16_wellformed_cdf_accepted.
+(* as is (known finding D49) *)
+Theorem C16_reject_cdf_unknown_activation_refuted : exists c, d_activation_ok c = false /\ accepts_cdf c = true /\ cdf_call_ok c = false.
+Proof. exact cdf_unknown_activation_accepted. Qed.
+Print Assumptions C16_reject_cdf_unknown_activation_refuted.
+Theorem C16_reject_cdf_unknown_reduction_refuted : exists c, d_reduction_ok c = false /\ accepts_cdf c = true /\ cdf_call_ok c = false.
+Proof. exact cdf_unknown_reduction_accepted. Qed.
+Print Assumptions C16_reject_cdf_unknown_reduction_refuted.
+(* as is (known finding D48) *)
+Theorem C16_reject_cdf_zero_keypoints_refuted : exists c, d_keypoints c = 0 /\ accepts_cdf c = true.
+Proof. exact cdf_zero_keypoints_accepted. Qed.
+Print Assumptions C16_reject_cdf_zero_keypoints_refuted.
+(* call() reshapes (batch, input_dim, units / factor) into (batch, input_dim / factor, units) *)
+Theorem C16_accepted_cdf_reshape_consistent : forall c,
+  accepts_cdf c = true ->
+  d_dims c * (d_units c / d_sparsity c) = (d_dims c / d_sparsity c) * d_units c /\
+  d_dims c = d_sparsity c * (d_dims c / d_sparsity c) /\
+  d_units c = d_sparsity c * (d_units c / d_sparsity c).
+Proof. exact accepted_cdf_reshape_consistent. Qed.
+Print Assumptions C16_accepted_cdf_reshape_consistent.
+
+(* ---- premade_lib.verify_config.  shape_constrained f = unimodality, reflects_trust_in or
+   dominates set on feature f; f_regs_calib / m_regs_calib = per regulariser config, whether its
+   name starts with 'calib_'; LatList oks = lattices given as a list, per lattice whether it is an
+   iterable of str; f_cat_mono = the categorical monotonicity pairs as the code iterates them. *)
+Theorem C16_reject_config_feature_configs_none : forall c,
+  m_features c = None -> accepts_verify_config c = false.
+Proof. exact reject_config_features_none. Qed.
+Print Assumptions C16_reject_config_feature_configs_none.
+Theorem C16_reject_config_output_initialization : forall c,
+  m_output_init_ok c = false -> accepts_verify_config c = false.
+Proof. exact reject_config_output_initialization. Qed.
+Print Assumptions C16_reject_config_output_initialization.
+Theorem C16_reject_config_ensemble_lattices_unspecified : forall c,
+  m_kind c = MEnsemble -> m_lattices c = LatOther -> accepts_verify_config c = false.
+Proof. exact reject_config_ensemble_lattices_unspecified. Qed.
+Print Assumptions C16_reject_config_ensemble_lattices_unspecified.
+Theorem C16_reject_config_rtl_num_lattices : forall c,
+  m_kind c = MEnsemble -> m_lattices c = LatRtl ->
+  (m_num_lattices c = None \/ exists n, m_num_lattices c = Some n /\ n < 2) -> accepts_verify_config c = false.
+Proof. exact reject_config_rtl_num_lattices. Qed.
+Print Assumptions C16_reject_config_rtl_num_lattices.
+Theorem C16_reject_config_rtl_lattice_sizes_differ : forall c fs f g,
+  m_kind c = MEnsemble -> m_lattices c = LatRtl ->
+  m_features c = Some fs -> In f fs -> In g fs -> f_lattice_size f <> f_lattice_size g ->
+  accepts_verify_config c = false.
+Proof. exact reject_config_rtl_lattice_sizes_differ. Qed.
+Print Assumptions C16_reject_config_rtl_lattice_sizes_differ.
+Theorem C16_reject_config_rtl_shape_constraint : forall c fs f,
+  m_kind c = MEnsemble -> m_lattices c = LatRtl ->
+  m_features c = Some fs -> In f fs -> shape_constrained f -> accepts_verify_config c = false.
+Proof. exact reject_config_rtl_shape_constraint. Qed.
+Print Assumptions C16_reject_config_rtl_shape_constraint.
+Theorem C16_reject_config_rtl_feature_regularizer : forall c fs f,
+  m_kind c = MEnsemble -> m_lattices c = LatRtl ->
+  m_features c = Some fs -> In f fs -> In false (f_regs_calib f) -> accepts_verify_config c = false.
+Proof. exact reject_config_rtl_feature_regularizer. Qed.
+Print Assumptions C16_reject_config_rtl_feature_regularizer.
+Theorem C16_reject_config_ensemble_fewer_than_2_lattices : forall c oks,
+  m_kind c = MEnsemble -> m_lattices c = LatList oks ->
+  zlen oks < 2 -> accepts_verify_config c = false.
+Proof. exact reject_config_ensemble_fewer_than_2_lattices. Qed.
+Print Assumptions C16_reject_config_ensemble_fewer_than_2_lattices.
+Theorem C16_reject_config_ensemble_lattice_not_names : forall c oks,
+  m_kind c = MEnsemble -> m_lattices c = LatList oks ->
+  In false oks -> accepts_verify_config c = false.
+Proof. exact reject_config_ensemble_lattice_not_names. Qed.
+Print Assumptions C16_reject_config_ensemble_lattice_not_names.
+Theorem C16_reject_config_kfl_model_regularizer : forall c,
+  (m_kind c = MLattice \/ m_kind c = MEnsemble) -> m_kfl c = true ->
+  In false (m_regs_calib c) -> accepts_verify_config c = false.
+Proof. exact reject_config_kfl_model_regularizer. Qed.
+Print Assumptions C16_reject_config_kfl_model_regularizer.
+Theorem C16_reject_config_kfl_feature_regularizer : forall c fs f,
+  (m_kind c = MLattice \/ m_kind c = MEnsemble) -> m_kfl c = true ->
+  m_features c = Some fs -> In f fs -> In false (f_regs_calib f) -> accepts_verify_config c = false.
+Proof. exact reject_config_kfl_feature_regularizer. Qed.
+Print Assumptions C16_reject_config_kfl_feature_regularizer.
+Theorem C16_reject_config_kfl_lattice_sizes_differ : forall c fs f g,
+  (m_kind c = MLattice \/ m_kind c = MEnsemble) -> m_kfl c = true ->
+  m_features c = Some fs -> In f fs -> In g fs -> f_lattice_size f <> f_lattice_size g ->
+  accepts_verify_config c = false.
+Proof. exact reject_config_kfl_lattice_sizes_differ. Qed.
+Print Assumptions C16_reject_config_kfl_lattice_sizes_differ.
+Theorem C16_reject_config_kfl_shape_constraint : forall c fs f,
+  (m_kind c = MLattice \/ m_kind c = MEnsemble) -> m_kfl c = true ->
+  m_features c = Some fs -> In f fs -> shape_constrained f -> accepts_verify_config c = false.
+Proof. exact reject_config_kfl_shape_constraint. Qed.
+Print Assumptions C16_reject_config_kfl_shape_constraint.
+Theorem C16_reject_config_aggregate_middle_dimension : forall c,
+  m_kind c = MAggregate -> m_middle_dim c < 1 ->
+  accepts_verify_config c = false.
+Proof. exact reject_config_aggregate_middle_dimension. Qed.
+Print Assumptions C16_reject_config_aggregate_middle_dimension.
+Theorem C16_reject_config_aggregate_middle_monotonicity : forall c,
+  m_kind c = MAggregate ->
+  m_middle_mono c = true -> m_middle_calib c = false -> accepts_verify_config c = false.
+Proof. exact reject_config_aggregate_middle_monotonicity. Qed.
+Print Assumptions C16_reject_config_aggregate_middle_monotonicity.
+Theorem C16_reject_config_feature_keypoints : forall c fs f,
+  m_features c = Some fs -> In f fs ->
+  f_buckets f = 0 -> f_keypoints_ok f = false -> accepts_verify_config c = false.
+Proof. exact reject_config_feature_keypoints. Qed.
+Print Assumptions C16_reject_config_feature_keypoints.
+Theorem C16_reject_config_categorical_monotonicity_not_iterable : forall c fs f,
+  m_features c = Some fs -> In f fs ->
+  f_buckets f <> 0 -> f_cat_mono f = CmNotIterable -> accepts_verify_config c = false.
+Proof. exact reject_config_categorical_monotonicity_not_iterable. Qed.
+Print Assumptions C16_reject_config_categorical_monotonicity_not_iterable.
+Theorem C16_reject_config_categorical_element_not_iterable : forall c fs f es,
+  m_features c = Some fs -> In f fs ->
+  f_buckets f <> 0 -> f_cat_mono f = CmElems es -> In ElemNotIterable es -> accepts_verify_config c = false.
+Proof. exact reject_config_categorical_element_not_iterable. Qed.
+Print Assumptions C16_reject_config_categorical_element_not_iterable.
+Theorem C16_reject_config_categorical_value_not_int : forall c fs f es vs,
+  m_features c = Some fs -> In f fs ->
+  f_buckets f <> 0 -> f_cat_mono f = CmElems es -> In (ElemVals vs) es -> In None vs ->
+  accepts_verify_config c = false.
+Proof. exact reject_config_categorical_value_not_int. Qed.
+Print Assumptions C16_reject_config_categorical_value_not_int.
+Theorem C16_reject_config_categorical_value_out_of_range : forall c fs f es vs z,
+  m_features c = Some fs -> In f fs ->
+  f_buckets f <> 0 -> f_cat_mono f = CmElems es -> In (ElemVals vs) es -> In (Some z) vs ->
+  (z < 0 \/ f_buckets f <= z) -> accepts_verify_config c = false.
+Proof. exact reject_config_categorical_value_out_of_range. Qed.
+Print Assumptions C16_reject_config_categorical_value_out_of_range.
+Theorem C16_accepted_config_wellformed : forall c,
+  accepts_verify_config c = true -> config_accepted c.
+Proof. exact accepts_verify_config_sound. Qed.
+Print Assumptions C16_accepted_config_wellformed.
+(* as is (known finding D50): an empty feature list passes verify_config *)
+Theorem C16_reject_config_empty_feature_list_refuted : exists c, m_features c = Some [] /\ accepts_verify_config c = true.
+Proof. exact config_empty_features_accepted. Qed.
+Print Assumptions C16_reject_config_empty_feature_list_refuted.
+
+Example C16_accepted_rtl_example :
+  accepts_rtl (mkRTL 2 2 2 (Some (0#1)) (Some (1#1))%Q true ParamAll InitLatticeRanged
+                     (RegList [mkReg 3 true AmtFloat AmtFloat]) None None 2 true (Some 1) (Some 2)) = true.
+Proof. exact rtl_accepted_example. Qed.
+Example C16_accepted_cdf_example : accepts_cdf (mkCDF 5 4 2 6 true true true true true) = true.
+Proof. exact cdf_accepted_example. Qed.
+Example C16_lattice_regularizer_example : accepts_lattice_regularizer (mkLRg [2; 3] (AmtSeq 2) AmtFloat) = true /\
+                         accepts_lattice_regularizer (mkLRg [2; 3] (AmtSeq 3) AmtFloat) = false.
+Proof. exact latreg_example. Qed.
+Example C16_accepted_config_example :
+  accepts_verify_config
+    (mkPM MEnsemble (Some [mkF 0 true CmFalsyOrNone 2 false false false [true];
+                           mkF 3 false (CmElems [ElemVals [Some 0; Some 2]]) 2 false false false []])
+          LatRtl (Some 2) true [true] 1 false false true) = true.
+Proof. exact config_accepted_example. Qed.
